@@ -176,40 +176,47 @@ theorem stop_eff {s s' : State} {id code : Nat} {b : Bool}
             exact ⟨by simpa using hns, by rw [← hst.2.2], by rw [← hst.2.2]; rfl⟩
       split at h
       · contradiction
-      · rename_i s4 hfree
+      · rename_i s4a hfree
         split at h
         · contradiction
-        · rename_i s5 t hcq
-          simp only [Option.some.injEq, Prod.mk.injEq] at h
-          obtain ⟨rfl, rfl⟩ := h
-          obtain ⟨hc4, hrv4⟩ := freeRecvIf_rv hfree
-          have hq := rvw_queueStopSending (s1.putRecv id rs') stopSending id code
-          have hc4' : s4.rcore = s1.rcore := by
-            rw [hc4]; exact congrArg RView.core hq
-          simp only [State.rcore, RCore.mk.injEq] at hc4'
-          obtain ⟨q1, q2, _⟩ := creditAndQueue_spec hcq
-          have e5 : ∀ k, s5.rv k = if (!rs'.finalOffsetUnknown) = true ∧ k = id then none
-              else if k = id then some rs' else s1.rv k := by
-            intro k
-            have a : s5.rv k = s4.rv k := by simp only [State.rv, q1]
-            have e1 : ((s1.putRecv id rs').queueStopSending stopSending id code).rv k =
-                (s1.putRecv id rs').rv k := congrFun (congrArg RView.rv hq) k
-            rw [a, hrv4 k, e1, rv_putRecv hw.choose_spec]
-          refine ⟨id, fun k hk => Le.of (Or.inl <| by rw [e5 k, hrv1 k]; simp [hk]), fun cl => ?_⟩
-          have hu' : unread (s5.rv id) = 0 ∧ Clr (s5.rv id) := by
-            rw [e5 id]; split
-            · exact ⟨rfl, Clr.none⟩
-            · simp only [↓reduceIte]
-              refine ⟨unread_stopped hst'.2.1, fun r hr _ => ?_⟩
-              simp only [Option.some.injEq] at hr; subst hr; exact hst'.2.2
-          have hd : discarded s (.stop id code) .ok ≤ unread (s.rv id) := by
-            rw [← hu]
-            simp only [discarded]
-            rcases hor with hh | ⟨hh, hnew⟩
-            · rw [hh]; simp only [unread, hst'.1]; split <;> simp_all
-            · rw [hh]; exact Nat.zero_le _
-          simp only [↓reduceIte]
-          rw [hu'.1, q2, hc4'.1, hc1.1]; exact ⟨hu'.2, by omega⟩
+        · rename_i s4 hqm
+          split at h
+          · contradiction
+          · rename_i s5 t hcq
+            simp only [Option.some.injEq, Prod.mk.injEq] at h
+            obtain ⟨rfl, rfl⟩ := h
+            -- announcing the freed slot (`queue_max_stream_id`) does not touch the receive side's accounting
+            have hqv := rvw_queueMaxIf hqm
+            obtain ⟨hc4a, hrv4a⟩ := freeRecvIf_rv hfree
+            have hc4 : s4.rcore = _ := (congrArg RView.core hqv).trans hc4a
+            have hrv4 : ∀ k, s4.rv k = _ := fun k => (congrFun (congrArg RView.rv hqv) k).trans (hrv4a k)
+            have hq := rvw_queueStopSending (s1.putRecv id rs') stopSending id code
+            have hc4' : s4.rcore = s1.rcore := by
+              rw [hc4]; exact congrArg RView.core hq
+            simp only [State.rcore, RCore.mk.injEq] at hc4'
+            obtain ⟨q1, q2, _⟩ := creditAndQueue_spec hcq
+            have e5 : ∀ k, s5.rv k = if (!rs'.finalOffsetUnknown) = true ∧ k = id then none
+                else if k = id then some rs' else s1.rv k := by
+              intro k
+              have a : s5.rv k = s4.rv k := by simp only [State.rv, q1]
+              have e1 : ((s1.putRecv id rs').queueStopSending stopSending id code).rv k =
+                  (s1.putRecv id rs').rv k := congrFun (congrArg RView.rv hq) k
+              rw [a, hrv4 k, e1, rv_putRecv hw.choose_spec]
+            refine ⟨id, fun k hk => Le.of (Or.inl <| by rw [e5 k, hrv1 k]; simp [hk]), fun cl => ?_⟩
+            have hu' : unread (s5.rv id) = 0 ∧ Clr (s5.rv id) := by
+              rw [e5 id]; split
+              · exact ⟨rfl, Clr.none⟩
+              · simp only [↓reduceIte]
+                refine ⟨unread_stopped hst'.2.1, fun r hr _ => ?_⟩
+                simp only [Option.some.injEq] at hr; subst hr; exact hst'.2.2
+            have hd : discarded s (.stop id code) .ok ≤ unread (s.rv id) := by
+              rw [← hu]
+              simp only [discarded]
+              rcases hor with hh | ⟨hh, hnew⟩
+              · rw [hh]; simp only [unread, hst'.1]; split <;> simp_all
+              · rw [hh]; exact Nat.zero_le _
+            simp only [↓reduceIte]
+            rw [hu'.1, q2, hc4'.1, hc1.1]; exact ⟨hu'.2, by omega⟩
 
 theorem read_eff {s s' : State} {id budget : Nat} {r : ReadRes}
     (h : s.read id budget = some (s', r)) (i : RInv s) :
